@@ -123,8 +123,14 @@ func (v *VerifC35) handle(w http.ResponseWriter, r *http.Request) {
 	if ch == nil {
 		return
 	}
-	if cmd := <-ch; cmd == "panic" {
+	cmd := <-ch
+	if cmd == "panic" {
 		panic("scripted handler panic")
+	}
+	if strings.HasPrefix(cmd, "body:") {
+		var n int
+		fmt.Sscanf(cmd[5:], "%d", &n)
+		w.Write(bytes.Repeat([]byte{'r'}, n)) // at most 4096 bytes: stays in the bufio.Writer until the handler returns
 	}
 }
 
@@ -365,6 +371,65 @@ func (v *VerifC35) Data(id uint32, n int, end bool) string {
 	return v.client(func() { v.cf.WriteData(id, end, bytes.Repeat([]byte{'d'}, n)) })
 }
 
+// DataPadded sends a DATA frame with the PADDED flag and pad bytes of padding (pad >= 1).
+func (v *VerifC35) DataPadded(id uint32, n int, end bool, pad int) string {
+	return v.client(func() { v.cf.WriteDataPadded(id, end, bytes.Repeat([]byte{'d'}, n), make([]byte, pad)) })
+}
+
+// otherQueues reports whether the write scheduler holds frames for a stream other than id.
+func (v *VerifC35) otherQueues(id uint32) bool {
+	for k, q := range v.sc.writeSched.sq {
+		if k != id && !q.empty() {
+			return true
+		}
+	}
+	return false
+}
+
+// HandlerBody lets the handler of stream id write n (1..4096) body bytes and return: response HEADERS, then
+// DATA(n bytes, END_STREAM), which waits in the stream's queue while the send windows do not allow it.
+func (v *VerifC35) HandlerBody(id uint32, n int) string {
+	if v.held != nil || v.otherQueues(id) {
+		return "busy" // keeps the choice among several streams with DATA to send (Go map order, C34) out of the picture
+	}
+	v.mu.Lock()
+	ch := v.cmds[id]
+	run := v.running[id]
+	v.mu.Unlock()
+	if ch == nil || !run {
+		return "nohandler"
+	}
+	v.ForgetHandler(id)
+	ch <- fmt.Sprintf("body:%d", n)
+	res := "ok"
+	for i := 0; i < 2 && res == "ok"; i++ {
+		var wm frameWriteMsg
+		select {
+		case wm = <-v.sc.wantWriteFrameCh:
+		case <-time.After(10 * time.Second):
+			return "HANG"
+		}
+		res = v.outcome(func() bool { v.sc.writeFrame(wm); return true })
+	}
+	return v.afterHandlerFrames(id, res)
+}
+
+func (v *VerifC35) afterHandlerFrames(id uint32, r string) string {
+	if r != "ok" {
+		return r
+	}
+	if v.held != nil {
+		return "held"
+	}
+	if q, ok := v.sc.writeSched.sq[id]; ok && !q.empty() {
+		if v.sc.inGoAway && v.sc.goAwayCode != ErrCodeNo {
+			return "queued" // GOAWAY with an error code stops the scheduler: the frame stays in the queue
+		}
+		return "blocked" // DATA waiting for the send windows
+	}
+	return "skip"
+}
+
 func (v *VerifC35) Rst(id uint32) string {
 	return v.client(func() { v.cf.WriteRSTStream(id, ErrCodeCancel) })
 }
@@ -402,16 +467,7 @@ func (v *VerifC35) HandlerEnds(id uint32, doPanic bool) string {
 		return "HANG"
 	}
 	r := v.outcome(func() bool { v.sc.writeFrame(wm); return true })
-	if r == "ok" {
-		if v.held != nil {
-			return "held"
-		}
-		if q, ok := v.sc.writeSched.sq[id]; ok && !q.empty() {
-			return "queued" // GOAWAY with an error code stops the scheduler: the frame stays in the queue
-		}
-		return "skip"
-	}
-	return r
+	return v.afterHandlerFrames(id, r)
 }
 
 // Wrote completes the frame in flight (the writeFrames goroutine reports on wroteFrameCh).
@@ -435,8 +491,8 @@ func (v *VerifC35) ForgetHandler(id uint32) {
 	v.mu.Unlock()
 }
 
-// State renders maxStreamID, curOpenStreams, the connection send window, SETTINGS_INITIAL_WINDOW_SIZE and the
-// live streams with their send windows.
+// State renders maxStreamID, curOpenStreams, the connection send window, SETTINGS_INITIAL_WINDOW_SIZE, the
+// live streams with their send windows, and the number of frames queued per stream in the write scheduler.
 func (v *VerifC35) State() string {
 	var ids []int
 	for id := range v.sc.streams {
@@ -462,7 +518,19 @@ func (v *VerifC35) State() string {
 		}
 		parts = append(parts, fmt.Sprintf("%d%s(%d)", id, s, st.flow.n))
 	}
-	return fmt.Sprintf("%d:%d:%d:%d:%s", v.sc.maxStreamID, v.sc.curOpenStreams, v.sc.flow.n, v.sc.initialWindowSize, strings.Join(parts, ","))
+	var qids []int
+	for id, q := range v.sc.writeSched.sq {
+		if !q.empty() {
+			qids = append(qids, int(id))
+		}
+	}
+	sort.Ints(qids)
+	var qs []string
+	for _, id := range qids {
+		qs = append(qs, fmt.Sprintf("%d=%d", id, len(v.sc.writeSched.sq[uint32(id)].s)))
+	}
+	return fmt.Sprintf("%d:%d:%d:%d:%s:q%s", v.sc.maxStreamID, v.sc.curOpenStreams, v.sc.flow.n, v.sc.initialWindowSize,
+		strings.Join(parts, ","), strings.Join(qs, ","))
 }
 
 // Close releases the handler goroutines.
